@@ -78,13 +78,12 @@ def Ring.drainAll (rb : Ring) : List UInt8 × Ring := rb.drain copyBufSize (N + 
 /-! ### abstract view -/
 
 /-- number of unread bytes -/
-def Ring.len (rb : Ring) : Nat := if rb.r ≤ rb.w then rb.w - rb.r else rb.w + N - rb.r
+def Ring.len (rb : Ring) : Nat := if rb.r ≤ rb.w then rb.w - rb.r else (N - rb.r) + rb.w
 
-/-- index `i` positions after `start`, wrapping once -/
-def wrap (i : Nat) : Nat := if i < N then i else i - N
-
-/-- the unread bytes, oldest first -/
-def Ring.contents (rb : Ring) : List UInt8 := (List.range rb.len).map fun i => rb.get (wrap (rb.r + i))
+/-- the unread bytes, oldest first: one segment, or the segment up to the end of the buffer followed
+by the segment from its start -/
+def Ring.contents (rb : Ring) : List UInt8 :=
+  if rb.r ≤ rb.w then rb.slice rb.r (rb.w - rb.r) else rb.slice rb.r (N - rb.r) ++ rb.slice 0 rb.w
 
 def Ring.WF (rb : Ring) : Prop := rb.buf.size = N ∧ rb.r < N ∧ rb.w < N
 
